@@ -90,13 +90,25 @@ def regen(cfg, state):
 
 # ----------------------------------------------------------------------------- prove + audit
 
+def extra_modules(cfg):
+    """Additional audited theorem modules: [{"file": "OasisProofs/Props/X.lean", "namespace": "OasisProofs.X"}]."""
+    out = []
+    for e in cfg.get("extra_theorem_files", []):
+        mod = e.get("module") or e["file"][:-5].replace("/", ".")
+        out.append((e["file"], e.get("namespace", mod.replace(".Props.", ".")), mod))
+    return out
+
+
 def theorem_names(pid, cfg):
-    """Names of the theorems in Props/<pid>.lean (the obligations)."""
+    """Names of the theorems in Props/<pid>.lean and the extra theorem files (the obligations)."""
     path = os.path.join(LEAN, "OasisProofs", "Props", pid + ".lean")
     src = open(path).read()
     ns = cfg.get("namespace", "OasisProofs." + pid)
-    names = re.findall(r"^theorem\s+([A-Za-z_][A-Za-z0-9_'.]*)", src, re.M)
-    return [ns + "." + n for n in names], src
+    names = [ns + "." + n for n in re.findall(r"^theorem\s+([A-Za-z_][A-Za-z0-9_'.]*)", src, re.M)]
+    for f, ens, _mod in extra_modules(cfg):
+        esrc = open(os.path.join(LEAN, f)).read()
+        names += [ens + "." + n for n in re.findall(r"^theorem\s+([A-Za-z_][A-Za-z0-9_'.]*)", esrc, re.M)]
+    return names, src
 
 
 def strip_comments(src):
@@ -107,6 +119,7 @@ def strip_comments(src):
 
 def lean_sources_for(pid, cfg):
     files = [os.path.join(LEAN, "OasisProofs", "Props", pid + ".lean")]
+    files += [os.path.join(LEAN, f) for f, _, _ in extra_modules(cfg)]
     for rel in cfg.get("lean_sources", []):
         p = os.path.join(LEAN, rel)
         if os.path.isdir(p):
@@ -120,7 +133,8 @@ def lean_sources_for(pid, cfg):
 def prove(pid, cfg, tier, state):
     """lake build of the theorem module + executable; then axiom audit."""
     mod = "OasisProofs.Props." + pid
-    rc, out, dt = lake(["build", mod] + model_targets(cfg), timeout=3600)
+    mods = [mod] + [m for _, _, m in extra_modules(cfg)]
+    rc, out, dt = lake(["build"] + mods + model_targets(cfg), timeout=3600)
     state["lake_build_s"] = round(dt, 1)
     if rc != 0:
         m = re.findall(r"error: ([^\n]*)", out)
@@ -141,7 +155,8 @@ def prove(pid, cfg, tier, state):
     audit = os.path.join(LEAN, ".lake", "audit_%s.lean" % pid)
     os.makedirs(os.path.dirname(audit), exist_ok=True)
     with open(audit, "w") as f:
-        f.write("import %s\n" % mod)
+        for m in mods:
+            f.write("import %s\n" % m)
         for n in names:
             f.write("#print axioms %s\n" % n)
     rc, out, _ = lake(["env", "lean", audit], timeout=1800)
